@@ -162,6 +162,34 @@ def generate(ctx):
             yield 'vpad', dict(z=z, K=K, seed=int(rng.integers(0, 2 ** 31)))
 
 
+    # ---- whole operators on a mesh (implementation-level oracle: sharded == unsharded, padding inert) ----
+    all_meshes = [(z, x, y) for z in (1, 2, 4, 8) for x in (1, 2, 4, 8) for y in (1, 2, 4, 8) if z * x * y <= 8]
+    gm = [(2, 1, 1), (1, 2, 2), (2, 2, 2), (1, 4, 2)] if quick else all_meshes
+    for i, (z, x, y) in enumerate(gm):
+        L = int(rng.integers(4, 8)) if quick else int(rng.integers(4, 11))
+        K = int(rng.choice([3, 5])) if z > 1 else int(rng.integers(1, 4))      # level counts not divisible by z
+        base = [None, 1, 2][i % 3] if x * y > 1 or z > 1 else 4
+        ctx.count('grid mesh=%dx%dx%d' % (z, x, y))
+        yield 'grid', dict(mesh=[z, x, y], L=L, K=K, base=base, seed=int(rng.integers(0, 2 ** 31)))
+    fm = [(None, 4, 8), ((1, 2, 2), None, 5), ((2, 2, 1), 2, 6), (None, 3, 7)] if quick else \
+        [(None, 4, 8), (None, 3, 7), (None, 8, 5), (None, 2, 6)] + [(m, [None, 1, 2, 4][k % 4], 4 + k % 6) for k, m in enumerate(all_meshes)]
+    for (m, base, L) in fm:
+        yield 'filters', dict(mesh=list(m) if m else None, L=L, base=base, K=2, seed=int(rng.integers(0, 2 ** 31)),
+                              dt=float(rng.integers(1, 9)) / 64, tau=float(rng.integers(1, 9)) / 16, order=int(rng.integers(1, 4)))
+    im = [(2, 1, 1), (2, 2, 2), (4, 1, 2)] if quick else all_meshes
+    for (z, x, y) in im:
+        k = int(rng.integers(1, 3)) if z > 1 else int(rng.integers(2, 5))
+        b = util.uneven_boundaries(rng, z * k, 4).tolist()
+        ctx.count('implicit mesh=%dx%dx%d' % (z, x, y))
+        yield 'implicit', dict(mesh=[z, x, y], L=int(rng.integers(4, 7)), bounds=b, seed=int(rng.integers(0, 2 ** 31)),
+                               eta=float(rng.integers(1, 33)) / 64)
+    if not quick:
+        for (z, x, y) in all_meshes:
+            k = 2 if z > 1 else 4
+            b = util.uneven_boundaries(rng, max(z * k // (2 if z == 8 else 1), z), 4).tolist()
+            yield 'step', dict(mesh=[z, x, y], L=6, bounds=b, seed=int(rng.integers(0, 2 ** 31)))
+
+
 # ---------------------------------------------------------------------------
 # runners
 # ---------------------------------------------------------------------------
@@ -394,3 +422,156 @@ def r_vpad(ctx, a):
 
 RUNNERS = {'einsum': r_einsum, 'logic': r_logic, 'cumsum': r_cumsum, 'reshape': r_reshape, 'dlon': r_dlon,
            'shapes': r_shapes, 'vpad': r_vpad}
+
+
+# ---------------------------------------------------------------------------
+# whole operators on a mesh
+# ---------------------------------------------------------------------------
+_coords = {}
+
+
+def coords_of(mesh, L, bounds, base):
+    """CoordinateSystem with FastSphericalHarmonics; mesh None = single device."""
+    import functools
+    jax, jnp, jnu, sh, cs = J()
+    from dinosaur import sigma_coordinates as sc
+    key = (tuple(mesh) if mesh else None, L, tuple(bounds), base)
+    if key not in _coords:
+        impl = sh.FastSphericalHarmonics if base is None else functools.partial(sh.FastSphericalHarmonics, base_shape_multiple=base)
+        grid = sh.Grid.with_wavenumbers(longitude_wavenumbers=L, spherical_harmonics_impl=impl)
+        m = mesh_of(mesh, ['z', 'x', 'y']) if mesh else None
+        _coords[key] = cs.CoordinateSystem(grid, sc.SigmaCoordinates(np.asarray(bounds, dtype=np.float64)), spmd_mesh=m)
+    return _coords[key]
+
+
+def _pad_to(x, shape2):
+    return np.pad(x, [(0, 0)] * (x.ndim - 2) + [(0, shape2[0] - x.shape[-2]), (0, shape2[1] - x.shape[-1])])
+
+
+def _cmp_padded(ctx, what, big, small, scale, pad_zero=True):
+    """`big` lives on the padded layout, `small` on the unpadded one."""
+    big = np.asarray(big); small = np.asarray(small)
+    a, b = small.shape[-2:]
+    ctx.oracle('%s: no non-finite values on the padded layout' % what, bool(np.isfinite(big).all()))
+    if big.shape[:-2] != small.shape[:-2]:
+        ctx.oracle('%s: sharded result (padding removed) = unsharded result' % what, False, [list(big.shape), list(small.shape)])
+        return
+    ctx.oracle_close('%s: sharded result (padding removed) = unsharded result' % what, big[..., :a, :b], small, scale=scale)
+    if not pad_zero:
+        return
+    rest = big.copy(); rest[..., :a, :b] = 0
+    ctx.oracle('%s: padding stays zero' % what, bool((rest == 0).all()), float(np.abs(rest).max()) if rest.size else 0.0)
+
+
+def r_grid(ctx, a):
+    jax, jnp, jnu, sh, cs = J()
+    K = a['K']; b = np.linspace(0, 1, K + 1).tolist()
+    c0 = coords_of(None, a['L'], b, 1); c1 = coords_of(a['mesh'], a['L'], b, a['base'])
+    g0 = c0.horizontal; g1 = c1.horizontal
+    x0 = idata(a['seed'], (K,) + g0.modal_shape) * g0.mask
+    x1 = _pad_to(x0, g1.modal_shape)
+    ctx.oracle('mask of the padded layout = padded mask', bool((g1.mask == _pad_to(g0.mask, g1.modal_shape)).all()))
+    n0 = np.asarray(g0.to_nodal(jnp.asarray(x0))); n1 = np.asarray(g1.to_nodal(jnp.asarray(x1)))
+    _cmp_padded(ctx, 'to_nodal', n1, n0, 4 * float(np.abs(x0).sum(axis=(1, 2)).max()) + 1)
+    y0 = idata(a['seed'] + 3, (K,) + g0.nodal_shape); y1 = _pad_to(y0, g1.nodal_shape)
+    m0 = np.asarray(g0.to_modal(jnp.asarray(y0))); m1 = np.asarray(g1.to_modal(jnp.asarray(y1)))
+    _cmp_padded(ctx, 'to_modal', m1, m0, float(np.abs(y0).sum(axis=(1, 2)).max()) + 1)
+    d0 = np.asarray(g0.d_dlon(jnp.asarray(x0))); d1 = np.asarray(g1.d_dlon(jnp.asarray(x1)))
+    _cmp_padded(ctx, 'd_dlon', d1, d0, float(np.abs(x0).max() * a['L']) + 1)
+    M1 = g1.modal_shape[0]
+    for (idx, col), (_, dcol) in zip(util.columns(x1, 1), util.columns(d1, 1)):
+        if idx[1] < 2:     # two columns per level are enough (each costs a model call)
+            ctx.corr('Grid.d_dlon on mesh vs model', dcol, ctx.model.call(6, [M1, a['mesh'][1]], [col]), scale=float(np.abs(x0).max() * M1) + 1)
+    for name in ('cos_lat_d_dlat', 'laplacian', 'inverse_laplacian', 'clip_wavenumbers'):
+        r0 = np.asarray(getattr(g0, name)(jnp.asarray(x0))); r1 = np.asarray(getattr(g1, name)(jnp.asarray(x1)))
+        # cos_lat_d_dlat documents an artifact in the highest wavenumber: on a padded layout it lands in the
+        # first padded column (l = L); it must be inert, i.e. invisible after the next transform
+        _cmp_padded(ctx, name, r1, r0, float(np.abs(r0).max()) * 4 + 1, pad_zero=(name != 'cos_lat_d_dlat'))
+        if name == 'cos_lat_d_dlat':
+            _cmp_padded(ctx, 'to_nodal(cos_lat_d_dlat)', np.asarray(g1.to_nodal(jnp.asarray(r1))),
+                        np.asarray(g0.to_nodal(jnp.asarray(r0))), 4 * float(np.abs(r0).sum(axis=(1, 2)).max()) + 1)
+    if K % a['mesh'][0] == 0:
+        s1 = np.asarray(c1.with_dycore_sharding(jnp.asarray(x1)))
+        ctx.oracle('with_dycore_sharding is the identity', bool((s1 == x1).all()))
+
+
+def r_filters(ctx, a):
+    jax, jnp, jnu, sh, cs = J()
+    from dinosaur import filtering, time_integration as ti
+    K = a['K']; b = np.linspace(0, 1, K + 1).tolist()
+    c0 = coords_of(None, a['L'], b, 1); c1 = coords_of(a['mesh'], a['L'], b, a['base'])
+    g0 = c0.horizontal; g1 = c1.horizontal
+    ctx.count('filters padding=%s' % (tuple(g1.modal_padding),))
+    x0 = {'u': idata(a['seed'], (K,) + g0.modal_shape) * g0.mask, 'p': idata(a['seed'] + 1, (1,) + g0.modal_shape) * g0.mask}
+    x1 = {k: _pad_to(v, g1.modal_shape) for k, v in x0.items()}
+    fs = {'exponential_step_filter': lambda g: ti.exponential_step_filter(g, a['dt'], a['tau'], a['order'] + 1, 0.25),
+          'horizontal_diffusion_step_filter': lambda g: ti.horizontal_diffusion_step_filter(g, a['dt'], a['tau'], a['order'])}
+    for name, mk in fs.items():
+        r0 = mk(g0)(x0, x0); r1 = mk(g1)(x1, x1)
+        for k in x0:
+            _cmp_padded(ctx, name, r1[k], r0[k], float(np.abs(x0[k]).max()) + 1)
+    fs2 = {'exponential_filter': lambda g: filtering.exponential_filter(g, 16, a['order'] + 1, 0.5),
+           'horizontal_diffusion_filter': lambda g: filtering.horizontal_diffusion_filter(g, a['dt'] * 1e-3, a['order'])}
+    for name, mk in fs2.items():
+        r0 = mk(g0)(x0); r1 = mk(g1)(x1)
+        for k in x0:
+            _cmp_padded(ctx, name, r1[k], r0[k], float(np.abs(x0[k]).max()) + 1)
+
+
+def _pe_state(pe, c0, c1, K, seed, scales=(1.0, 1.0, 1.0, 1.0), tracers=False):
+    jnp = J()[1]
+    ms = c0.horizontal.modal_shape; mask = c0.horizontal.mask
+
+    def mkst(c):
+        fields = []
+        for i, (k, sc_) in enumerate(zip((K, K, K, 1, K), tuple(scales) + (scales[0],))):
+            fields.append(jnp.asarray(_pad_to(sc_ * idata(seed + i, (k,) + ms) * mask, c.horizontal.modal_shape)))
+        return pe.State(vorticity=fields[0], divergence=fields[1], temperature_variation=fields[2],
+                        log_surface_pressure=fields[3], tracers={'q': fields[4]} if tracers else {})
+    return mkst(c0), mkst(c1)
+
+
+def _cmp_states(ctx, what, s1, s0, rel=16.0):
+    for fld in ('vorticity', 'divergence', 'temperature_variation', 'log_surface_pressure'):
+        a0 = np.asarray(getattr(s0, fld)); a1 = np.asarray(getattr(s1, fld))
+        _cmp_padded(ctx, '%s.%s' % (what, fld), a1, a0, rel * float(np.abs(a0).max()) + 1e-30)
+    for k in s0.tracers:
+        a0 = np.asarray(s0.tracers[k]); a1 = np.asarray(s1.tracers[k])
+        _cmp_padded(ctx, '%s.tracers' % what, a1, a0, rel * float(np.abs(a0).max()) + 1e-30)
+
+
+def _pe_setup(a, tracers=False, scales=(1.0, 1.0, 1.0, 1.0)):
+    from dinosaur import primitive_equations as pe
+    b = a['bounds']; K = len(b) - 1
+    c0 = coords_of(None, a['L'], b, 1); c1 = coords_of(a['mesh'], a['L'], b, None)
+    specs = pe.PrimitiveEquationsSpecs.from_si()
+    Tref = 250.0 + 10.0 * np.arange(K)
+    eq0 = pe.PrimitiveEquations(Tref, np.zeros(c0.horizontal.modal_shape), c0, specs)
+    eq1 = pe.PrimitiveEquations(Tref, np.zeros(c1.horizontal.modal_shape), c1, specs)
+    s0, s1 = _pe_state(pe, c0, c1, K, a['seed'], scales, tracers)
+    return pe, eq0, eq1, s0, s1
+
+
+def r_implicit(ctx, a):
+    pe, eq0, eq1, s0, s1 = _pe_setup(a)
+    _cmp_states(ctx, 'implicit_terms', eq1.implicit_terms(s1), eq0.implicit_terms(s0))
+    for m in ('split', 'stacked', 'blockwise'):
+        _cmp_states(ctx, 'implicit_inverse[%s]' % m, eq1.implicit_inverse(s1, a['eta'], method=m),
+                    eq0.implicit_inverse(s0, a['eta'], method='split'), rel=64.0)
+    # both vertical matmul strategies on the mesh
+    for vm in ('dense', 'sparse'):
+        import dataclasses
+        eqv = dataclasses.replace(eq1, vertical_matmul_method=vm)
+        _cmp_states(ctx, 'implicit_terms[%s]' % vm, eqv.implicit_terms(s1), eq0.implicit_terms(s0))
+
+
+def r_step(ctx, a):
+    jax = J()[0]
+    from dinosaur import time_integration as ti
+    pe, eq0, eq1, s0, s1 = _pe_setup(a, tracers=True, scales=(1e-3, 1e-3, 1e-2, 1e-3))
+    _cmp_states(ctx, 'explicit_terms', jax.jit(eq1.explicit_terms)(s1), jax.jit(eq0.explicit_terms)(s0), rel=64.0)
+    _cmp_states(ctx, 'imex_rk_sil3 step', jax.jit(ti.imex_rk_sil3(eq1, time_step=0.01))(s1),
+                jax.jit(ti.imex_rk_sil3(eq0, time_step=0.01))(s0), rel=64.0)
+
+
+RUNNERS.update({'grid': r_grid, 'filters': r_filters, 'implicit': r_implicit, 'step': r_step})
